@@ -1,6 +1,8 @@
 package schema
 
 import (
+	"time"
+
 	"github.com/cloudwego/eino/internal"
 )
 
@@ -159,6 +161,7 @@ func c14ToolCalls(extraFrag bool) {
 	var msgs []*Message
 	args := map[int]string{}
 	ids := map[int]string{}
+	var noIndex []string // arguments of the tool calls without an index, in arrival order
 	n := 3
 	for i := 0; i < n; i++ {
 		m := &Message{Role: Assistant}
@@ -187,6 +190,8 @@ func c14ToolCalls(extraFrag bool) {
 				if tc.ID != "" && ids[ix] == "" {
 					ids[ix] = tc.ID
 				}
+			} else {
+				noIndex = append(noIndex, a)
 			}
 			m.ToolCalls = append(m.ToolCalls, tc)
 		}
@@ -196,9 +201,12 @@ func c14ToolCalls(extraFrag bool) {
 	if all != nil {
 		last := -1
 		seenIdx := false
+		k := 0
 		for _, tc := range all.ToolCalls {
 			if tc.Index == nil {
 				vassert(!seenIdx, "fragments without index come first")
+				vassert(k < len(noIndex) && tc.Function.Arguments == noIndex[k], "tool calls without an index keep their arrival order")
+				k++
 				continue
 			}
 			seenIdx = true
@@ -427,5 +435,49 @@ func VerifC14Generic() {
 		if errTwo == nil && mErr == nil {
 			vassert(c14MapEq(two, mAll), "maps: prefix-then-rest gives the same map")
 		}
+	}
+}
+
+// every built-in scalar chunk type has a total rule (the last chunk wins): directly, and as a value inside map chunks
+func c14Last[T comparable](a, b T) {
+	v, err := internal.ConcatItems([]T{a, b})
+	vassert(err == nil && v == b, "scalar chunks concatenate to the last chunk, never a panic")
+	m, err := internal.ConcatItems([]map[string]any{{"k": a}, {"k": b}})
+	vassert(err == nil, "scalar values inside map chunks concatenate")
+	got, ok := m["k"].(T)
+	vassert(ok && got == b, "scalar values inside map chunks: the last chunk wins and the type is kept")
+}
+
+func VerifC14Scalars() {
+	x, y := vsymInt("x"), vsymInt("y")
+	switch vchoose("type", 14) {
+	case 0:
+		c14Last[int8](int8(x), int8(y))
+	case 1:
+		c14Last[int16](int16(x), int16(y))
+	case 2:
+		c14Last[int32](int32(x), int32(y))
+	case 3:
+		c14Last[int64](int64(x), int64(y))
+	case 4:
+		c14Last[int](x, y)
+	case 5:
+		c14Last[uint8](uint8(x), uint8(y))
+	case 6:
+		c14Last[uint16](uint16(x), uint16(y))
+	case 7:
+		c14Last[uint32](uint32(x), uint32(y))
+	case 8:
+		c14Last[uint64](uint64(x), uint64(y))
+	case 9:
+		c14Last[uint](uint(x), uint(y))
+	case 10:
+		c14Last[bool](x > 0, y > 0)
+	case 11:
+		c14Last[float32](1.5, 2.5)
+	case 12:
+		c14Last[float64](1.5, 2.5)
+	case 13:
+		c14Last[time.Duration](time.Duration(x), time.Duration(y))
 	}
 }
